@@ -7,9 +7,12 @@ patch=$(readlink -f $1); shift
 W=$(pwd)/.work/trytie-$$; rm -rf $W; mkdir -p $W; cp -r /repo $W/repo; rm -rf $W/repo/.git
 (cd $W/repo && patch -p1 -s < $patch) || { echo PATCH-FAILED; rm -rf $W; exit 2; }
 cp lean/RuxModel/Generated/Code.lean $W/Code.lean.bak
+cp lean/RuxModel/Generated/Facts.lean $W/Facts.lean.bak
 go/bin/go2lean -repo $W/repo -out lean/RuxModel/Generated/Code.lean -json $W/code.json
+go/bin/extract -repo $W/repo -out lean/RuxModel/Generated/Facts.lean -json $W/facts.json
 (cd lean && lake build "$@" > $W/out.txt 2>&1); rc=$?
 grep -v conda $W/out.txt | grep -A12 "error" | head -${LINES_SHOWN:-30}
 cp $W/Code.lean.bak lean/RuxModel/Generated/Code.lean
+cp $W/Facts.lean.bak lean/RuxModel/Generated/Facts.lean
 rm -rf $W
 exit $rc
